@@ -201,10 +201,15 @@ def handleModel (j : Json) : Except String Json := do
     | .ok cj => (jAssoc jRat cj).map some
     | .error _ => pure none
   let wr := writeModel m comps
-  let ex := exportModel m
-  let base := [("unsupported", Json.bool unsupported), ("in_language", Json.bool inLanguage), ("export", exJ sdoccJ wr), ("export_plain", exJ sdocJ ex),
+  -- the component part, computed on its own: `exportModel` (references avoid the component names) and `exportModelFrom`
+  -- with the names `_create_sbml_reactions` starts from (compartment ids included)
+  let plain := exportModel m
+  let from_ := (chooseCompartments m.names comps).bind fun cs => exportModelFrom (refTaken m cs) m
+  let ex := wr.map (·.doc)
+  let base := [("unsupported", Json.bool unsupported), ("in_language", Json.bool inLanguage), ("export", exJ sdoccJ wr),
+               ("export_plain", exJ sdocJ plain), ("export_from", exJ sdocJ from_),
                ("names", assocJ Json.str names), ("spec", spec)]
-  match wr.bind (fun _ => ex) with
+  match ex with
   | .error _ => pure (Json.mkObj base)
   | .ok d =>
     let d' := d.mapNames nameToPy
